@@ -163,7 +163,8 @@ CHECKS = {
         "title": "Data already present in the old build is not sent again",
         "level": "exploration",
         "technique": "rapid property-based testing with metamorphic byte bounds on the decoded patch (identical / renamed / k-edit builds on unique high-entropy content)",
-        "level_text": ("Three generated families on unique high-entropy content (one stream per file, no accidental reuse): identical builds; "
+        "level_text": ("Three generated families on unique high-entropy content (one stream per file, no accidental reuse; the identical and rename families also on zero-filled / "
+                       "0x20-filled / alternating constant blocks and with 'twin' old files that differ in one block by +1,-2,+1, i.e. several different blocks per rolling-hash bucket): identical builds; "
                        "renames/duplicates; one file with k in 0..4 recorded edits (overwrite/insert/delete, offsets biased to first/last block "
                        "and block edges, sizes up to 80 blocks so the 4MiB window wraps). Oracles from the decoded patch and DiffContext: "
                        "FreshBytes+ReusedBytes == new size; FreshBytes == sum of DATA bytes; equal-content file => 0 fresh bytes; edited file => "
@@ -174,7 +175,8 @@ CHECKS = {
                  "length-changing edit (where a de-synchronised rolling hash would blow the bound); for the identical/rename families a "
                  "multi-block file that is kept, renamed or duplicated. Distinct: SHA-1 of the spec."),
         "assumptions": ["high-entropy streams do not collide on 64KiB blocks by chance"],
-        "required_classes": {"quick": ["family:identical", "family:renames", "edits:length-changing", "edits:k=3", "old-signature:read-back-from-a-signature-stream"],
+        "required_classes": {"quick": ["family:identical", "family:renames", "edits:length-changing", "edits:k=3", "old-signature:read-back-from-a-signature-stream",
+                                       "content:blocks-with-weak-hash-0", "old:two-files-differing-in-a-block-with-the-same-weak-hash"],
                              "thorough": ["family:identical", "family:renames", "edits:length-changing", "edits:k=4", "edited-file:>4MiB"]},
         "stages": [rapid("freshbytes", "TestProp", 3600, 96000, qs=16, ts=16, qt=600, tt=5400)],
     },
